@@ -225,6 +225,7 @@ func (x *Exec) VerifyFunction(fn *ssa.Function, c *Contract) {
 	st.frames = []*Frame{fr}
 	fr.entryHeap = copyHeap(st.heap)
 	fr.entryWorlds = copyWorlds(st.worlds)
+	x.closureCreationFacts(st, fr)
 	if c != nil {
 		for _, cl := range c.Of("requires") {
 			sc := x.scopeFor(st, fr)
@@ -1645,6 +1646,25 @@ func (x *Exec) doReturn(st *State, fr *Frame, res []Val) bool {
 		x.checkPost(st, fr, res)
 		st.dead = true
 		return false
+	}
+	if x.inNewHelperChain(st, fr) && os.Getenv("GVC_NO_RENAME") == "" {
+		// the locals of a helper that was extracted from the function under contract stay readable by
+		// that function's clauses after the helper returned (lookupIdent: helperLocal)
+		if st.meta == nil {
+			st.meta = map[string]Val{}
+		}
+		for n, b := range fr.names {
+			if v, ok := x.bindingVal(st, b); ok {
+				st.meta["hl:"+CanonName(fr.fn)+":"+n] = v
+			}
+		}
+		for i, p := range fr.fn.Params {
+			if i < len(fr.params) {
+				if _, ok := st.meta["hl:"+CanonName(fr.fn)+":"+p.Name()]; !ok {
+					st.meta["hl:"+CanonName(fr.fn)+":"+p.Name()] = fr.params[i]
+				}
+			}
+		}
 	}
 	st.frames = st.frames[:len(st.frames)-1]
 	parent := st.top()
